@@ -43,7 +43,7 @@ EXTRA_CLASSES = [
     "builtins.Warning", "builtins.DeprecationWarning", "builtins.UserWarning", "builtins.RuntimeWarning", "builtins.ResourceWarning",
     "array.array", "re.Match", "re.Pattern", "_thread.RLock", "_thread.lock", "socket.socket", "ssl.SSLSocket", "ssl.SSLContext",
     "io.BufferedReader", "io.RawIOBase", "io.BufferedIOBase", "email.message.Message", "http.client.HTTPMessage",
-    "weakref.finalize", "zlib._ZlibDecompressor", "ipaddress.IPv4Address", "ipaddress.IPv6Address", "types.GeneratorType",
+    "weakref.finalize", "zlib._ZlibDecompressor", "ipaddress.IPv4Address", "ipaddress.IPv6Address", "types.GeneratorType", "datetime.date",
 ]
 
 def qual(o):
